@@ -38,6 +38,7 @@ REQUIRED = {
     "sessions_second_or_later": 500,
     "expected_exceptions_seen": 300,
     "derived_views_checked": 800,
+    "dtype_switches_between_sessions": 300,
 }
 
 
@@ -175,6 +176,13 @@ def run_history(rng, res: ShardResult, hist_no: int):
         res.count("operations")
         try:
             if op == "start":
+                if (len(model.times) == 0 or model.mode == "truncate") and rng.random() < 0.35:
+                    # a storage without surviving frames is reused for a field of another dtype
+                    # (same grid and shape, which is all that start_writing checks)
+                    dtype = str(rng.choice([d for d in ("float64", "complex128", "float32") if d != dtype]))
+                    src = make_field(rng, kind, grid, dtype)
+                    log.append(("new source field", dtype))
+                    res.count("dtype_switches_between_sessions")
                 exp = model.start_writing(src.data.shape, 0)
                 try:
                     storage.start_writing(src)
